@@ -65,6 +65,19 @@ def subset_cases():
     return out
 
 
+ZERO_ONLY = []      # (case, op, text): the generated function and the manager route differ in the sign of a zero only
+
+
+def known_zero_status():
+    """does the witness of the known finding cython-signed-zero still reproduce on the compiled build?"""
+    for e in vlib.known_findings("C13"):
+        if e["kind"] == "known" and e["signature"].startswith("cython-signed-zero"):
+            o = mc.run_impl_cases([{"store": e["witness"]["store"], "ops": e["witness"]["ops"]}])[0][-1]
+            g = o.get("genfun") or {}
+            return e, (g.get("equal") is False and bool(g.get("zero_only")))
+    return None, False
+
+
 def oracle(cases, obs):
     fails = []
     for i, (c, ol) in enumerate(zip(cases, obs)):
@@ -79,6 +92,8 @@ def oracle(cases, obs):
                 fails.append((i, k, f"the generated source lists a consumer before its producer: {g['order']}")); break
             if g["err"] is not None and not g.get("cycle") and taint is None and not g.get("twin_err"):
                 fails.append((i, k, f"the generated function raised {g['err']}")); break
+            if g["err"] is None and g.get("equal") is False and g.get("zero_only") and not g.get("cycle") and taint is None and not g.get("twin_err"):
+                ZERO_ONLY.append((i, k, f"containers differ from assigning through the manager in the sign of a zero: {g.get('diff')}")); continue
             if g["err"] is None and g.get("equal") is False and not g.get("cycle") and taint is None and not g.get("twin_err"):
                 fails.append((i, k, f"containers differ from assigning through the manager: {g.get('diff')}")); break
     return fails
@@ -99,6 +114,16 @@ def run(ctx):
     for sd in range(1, ctx.pick(3, 8)):
         fails += oracle(sub, mc.run_impl_cases(sub, hashseed=sd))
     fails += oracle(sub, mc.run_impl_cases(sub, build="pure"))
+    e, reproduces = known_zero_status()
+    if reproduces:
+        vlib.known(ctx, "the generated function computes with Python's arithmetic, the manager with the Cython-generated code whose float*int "
+                        "keeps the sign of a zero operand (see C20 cython-signed-zero): witness c['t'] = c['a'] * c['k'] with a = -0.0, k = -8 gives 0.0 "
+                        f"through the generated function and -0.0 through the manager; {len(ZERO_ONLY)} generated cases differ in the sign of a zero only")
+    else:
+        if e is not None:
+            ctx.notes.append("known finding C13/cython-signed-zero: the witness no longer reproduces on this tree")
+        fails += ZERO_ONLY
+    ctx.cov["sign_of_zero_only_differences"] = len(ZERO_ONLY)
     for c, ol in zip(cases, obs):
         for o in ol:
             g = o.get("genfun")
